@@ -9,8 +9,10 @@ package tracing
 //@   invariant spansLk [spans-nonnil] {C20} forall k datatransfer.ChannelID :: has(self.spans, k) ==> self.spans[k] != nil
 
 //@ func (*tracing.SpansIndex).SpanForChannel {C20}
+//@   acquires {C20} SpansIndex.spansLk
 //@   effectfree -- abstraction for callers: tracing has no effect on channels; the function itself is checked under C20
 //@   modifies si.spans
 //@ func (*tracing.SpansIndex).EndChannelSpan {C09,C20}
+//@   acquires {C20} SpansIndex.spansLk
 //@   modifies si.spans
 //@   guarantee [ends-only-this] forall k datatransfer.ChannelID :: (has(self.spans, k) <==> old(has(self.spans, k)) && k != chid)
